@@ -209,11 +209,38 @@ func c03ChainCase(ch c03Chain, pl c03Placement, sep string, sepName string, tag 
 var pendingPages []*Case
 
 func flushPages(r *Run) {
-	for _, c := range pendingPages {
+	pages := pendingPages
+	pendingPages = nil
+	for _, c := range pages {
 		r.Add(c)
 	}
-	pendingPages = nil
+	// the same pages once more, each placed in another CONTEXT (a v-if branch, a v-else template, a loop body, a component file, supplied slot
+	// content): the engine and the model are compared on the wrapped page. An element is evaluated by different code depending on how it is
+	// reached; a page that renders right at the top level and wrong inside a loop shows here. Sampled so that a flush adds a bounded number.
+	budget, total := 400, 3000
+	if r.Thorough() {
+		budget, total = 4000, 30000
+	}
+	if left := total - ctxVariantsUsed; left < budget {
+		budget = left
+	}
+	if budget <= 0 {
+		return
+	}
+	step := len(pages)/budget + 1
+	for i, c := range pages {
+		if i%step != 0 {
+			continue
+		}
+		if v := pageInContext(c, pageContexts[(i/step)%len(pageContexts)]); v != nil {
+			r.Add(v)
+			ctxVariantsUsed++
+		}
+	}
 }
+
+// context variants added so far in this run (one run per process)
+var ctxVariantsUsed int
 
 func c03Chains(r *Run) {
 	defer flushPages(r)
